@@ -1,3 +1,4 @@
 """registers every property's rules"""
 import rules_io      # noqa  C06 C07 C08 C09 C10
 import rules_sched   # noqa  C02 C03 C05
+import rules_err     # noqa  C04
